@@ -70,7 +70,7 @@ def gen_cases(ctx):
     thorough = ctx.tier == 'thorough'
     cases = []
     dist = {'p': {}, 'mode': {}, 'points': {}, 'mult_gt1': 0}
-    nkv = 260 if thorough else 44
+    nkv = 300 if thorough else 50
     pmax = 12 if thorough else 6
     for c in range(nkv):
         p = rng.randint(0, pmax) if c >= pmax + 1 else c      # every degree at least once
@@ -257,13 +257,11 @@ def run(ctx):
         if r['status'] != 'Ok':
             continue
         pts = list(range(len(c['pts'])))
-        if c['p'] > 8:       # the exponential reference is expensive: fewer points
-            pts = pts[:6]
-        elif ctx.tier != 'thorough' and len(pts) > 12:
-            # quick tier: 12 points per knot vector for the exact comparison, every kind represented
+        if ctx.tier != 'thorough' and len(pts) > 16:
+            # quick tier: 16 points per knot vector for the exact comparison, every kind represented
             # (all points are still checked on the implementation by check_impl_directly)
-            step = len(pts) / 12.0
-            pts = sorted({int(i * step) for i in range(12)})
+            step = len(pts) / 16.0
+            pts = sorted({int(i * step) for i in range(16)})
         files.append([coq_case(c, r, pts)])
         index.append([ci])
     texts = []
